@@ -599,3 +599,9 @@ def _(e, c, a):
 
 @model(r'^std::_print$|^std::_eprint$')
 def _(e, c, a): return mk_unit()
+
+
+@model(r'(?:^|::)pretty_print_bytes$', front=True)
+def _(e, c, a):
+    # crate helper used only for log / error texts: formatted text is not a subject
+    return RStr('<bytes>')
